@@ -192,7 +192,8 @@ pub fn check_edges_t<T: HEl>(c: &EdgeCase) -> CheckResult {
         .class_if(c.via_array, "from-array1")
         .class_if(c.via_array && c.arr_mode % 4 != 0, "from-array1:sliced/inverted-in-place")
         .class_if(want.len() < input.len(), "duplicates-in-input")
-        .class_if(want.len() < 2, "fewer-than-two-edges"))
+        .class_if(want.len() < 2, "fewer-than-two-edges")
+        .class_if(want.len() >= 1024, "edges>=1024"))
 }
 
 pub fn check_edges(c: &EdgeCase) -> CheckResult {
@@ -329,6 +330,41 @@ fn edges_strategy() -> impl Strategy<Value = EdgeCase> {
         })
 }
 
+/// Thousands of edge values (unsorted, with duplicates, or monotone), probed at random
+/// positions, at the extremes and next to a sample of the edges.
+fn edges_long_strategy(max_len: usize) -> impl Strategy<Value = EdgeCase> {
+    (proptest::sample::select(vec![HTy::I64, HTy::I32, HTy::N64]), crate::gen::long_len(300, max_len), 0u8..5, any::<u64>(), any::<bool>(), 0u8..4).prop_map(|(ty, n, class, seed, via_array, arr_mode)| {
+        let mut next = crate::gen::splitmix(seed);
+        let span = match class {
+            0 => 4 * n as u64,
+            1 => (n as u64 / 2).max(2),
+            _ => 16 * n as u64,
+        };
+        let mut vals: Vec<i64> = match class {
+            3 => (0..n as i64).map(|k| 3 * k - 1000).collect(),
+            4 => (0..n as i64).rev().map(|k| 2 * k).collect(),
+            _ => (0..n).map(|_| (next() % span) as i64 - 100).collect(),
+        };
+        if class == 2 {
+            // a few repeats of existing values
+            for _ in 0..8 {
+                let (i, j) = ((next() % n as u64) as usize, (next() % n as u64) as usize);
+                vals[i] = vals[j];
+            }
+        }
+        let (lo, hi) = (*vals.iter().min().unwrap(), *vals.iter().max().unwrap());
+        let mut probes: Vec<i64> = vec![lo - 1, lo, lo + 1, hi - 1, hi, hi + 1];
+        for _ in 0..60 {
+            probes.push(lo - 2 + (next() % (hi - lo + 5) as u64) as i64);
+        }
+        for _ in 0..20 {
+            let v = vals[(next() % n as u64) as usize];
+            probes.extend([v - 1, v, v + 1]);
+        }
+        EdgeCase { ty, vals, probes, via_array, arr_mode }
+    })
+}
+
 fn grid_strategy() -> impl Strategy<Value = GridCase> {
     (proptest::sample::select(vec![HTy::I64, HTy::I32, HTy::N64]), 1usize..=3)
         .prop_flat_map(|(ty, nd)| {
@@ -347,6 +383,7 @@ pub fn run_c13(ctx: &Ctx) {
     enum_edges(ctx, t.pick(6, 7));
     ctx.run_proptest("edges", t.pick(40_000, 1_000_000), edges_strategy(), &check_edges);
     ctx.run_proptest("grid", t.pick(40_000, 1_000_000), grid_strategy(), &check_grid);
+    ctx.run_proptest("edges-long", t.pick(1_000, 30_000), edges_long_strategy(t.pick(5_000, 10_000)), &check_edges);
 }
 
 // ---------------------------------------------------------------------------------------
@@ -523,6 +560,8 @@ fn hist_strategy(max_ops: usize) -> impl Strategy<Value = HistCase> {
 pub fn run_c11(ctx: &Ctx) {
     let t = ctx.tier();
     ctx.run_proptest("hist", t.pick(40_000, 1_000_000), hist_strategy(t.pick(60, 120)), &check_hist);
+    // long histories (thousands of observations)
+    ctx.run_proptest("hist-long", t.pick(300, 8_000), hist_strategy(t.pick(3_000, 6_000)), &check_hist);
 }
 
 // ---------------------------------------------------------------------------------------
@@ -600,7 +639,7 @@ enum Outcome<T: Ord> {
     OutOfDomain,
 }
 
-const MAX_BINS: f64 = 1.0e5;
+const MAX_BINS: f64 = 3.0e5;
 
 fn build_one<T: SEl, B: BinsBuildingStrategy<Elem = T>>(data: &Array1<T>, width_of: impl Fn(&B) -> T) -> Result<Outcome<T>, Failure> {
     let b = match catch(|| B::from_array(data)) {
@@ -757,6 +796,11 @@ pub fn check_strat_t<T: SEl>(c: &StratCase) -> CheckResult {
                         b.width.as_i() >= 2 || span >= (1u64 << 20) as f64
                     };
                 any_nontrivial |= nt;
+                if nb > 65_536 {
+                    info = info.class("bins>65536");
+                } else if nb > 4_096 {
+                    info = info.class("bins>4096");
+                }
                 per_axis_edges.push(edges);
             }
         }
@@ -840,6 +884,12 @@ fn strat_column(ty: STy, n: usize) -> BoxedStrategy<Vec<i128>> {
             }),
             // heavy ties with outliers (zero IQR)
             2 => (proptest::collection::vec(prop_oneof![8 => Just(1.0f64), 1 => -20.0f64..20.0], n)).prop_map(|v| v.into_iter().map(f64_abs).collect::<Vec<_>>()),
+            // a narrow bulk and one far outlier: tens of thousands of bins for the IQR-based strategies
+            1 => (proptest::collection::vec(0u32..1000, n), 30u32..80).prop_map(|(v, d)| {
+                let far = 10f64.powf(d as f64 / 10.0);
+                let m = v.len();
+                v.into_iter().enumerate().map(|(i, k)| f64_abs(if i + 1 == m { far } else { k as f64 / 8.0 })).collect::<Vec<_>>()
+            }),
             // general moderate values
             3 => proptest::collection::vec(moderate_f64().prop_map(f64_abs), n),
             // constant
@@ -858,6 +908,12 @@ fn strat_column(ty: STy, n: usize) -> BoxedStrategy<Vec<i128>> {
                 3 => (base.clone(), proptest::collection::vec(0i128..50, n)).prop_map(move |(b, v)| v.into_iter().map(|x| (b + x).max(lo).min(hi)).collect::<Vec<_>>()),
                 3 => (base.clone(), proptest::collection::vec(0i128..100_000, n)).prop_map(move |(b, v)| v.into_iter().map(|x| (b + x).max(lo).min(hi)).collect::<Vec<_>>()),
                 2 => (base.clone(), proptest::collection::vec(prop_oneof![8 => Just(7i128), 1 => 0i128..1000], n)).prop_map(move |(b, v)| v.into_iter().map(|x| (b + x).max(lo).min(hi)).collect::<Vec<_>>()),
+                // a narrow bulk and one far outlier (10^3 .. 10^8 away): tens of thousands of bins for the IQR-based strategies
+                1 => (base.clone(), proptest::collection::vec(0i128..1000, n), 30u32..80).prop_map(move |(b, v, d)| {
+                    let far = 10f64.powf(d as f64 / 10.0) as i128;
+                    let m = v.len();
+                    v.into_iter().enumerate().map(|(i, x)| (b + if i + 1 == m { far } else { x }).max(lo).min(hi)).collect::<Vec<_>>()
+                }),
                 1 => proptest::collection::vec(lo..=hi, n),
                 // right below the type's maximum (MAX-1040 .. MAX-41); cases whose maximum plus one bin
                 // width is not representable are discarded in the check, as the property requires
@@ -889,10 +945,10 @@ pub fn run_c12(ctx: &Ctx) {
 }
 
 pub fn replayers_c13() -> Vec<(&'static str, ReplayFn)> {
-    vec![("edges", |v| replay_with::<EdgeCase>(v, &check_edges)), ("grid", |v| replay_with::<GridCase>(v, &check_grid))]
+    vec![("edges", |v| replay_with::<EdgeCase>(v, &check_edges)), ("grid", |v| replay_with::<GridCase>(v, &check_grid)), ("edges-long", |v| replay_with::<EdgeCase>(v, &check_edges))]
 }
 pub fn replayers_c11() -> Vec<(&'static str, ReplayFn)> {
-    vec![("hist", |v| replay_with::<HistCase>(v, &check_hist))]
+    vec![("hist", |v| replay_with::<HistCase>(v, &check_hist)), ("hist-long", |v| replay_with::<HistCase>(v, &check_hist))]
 }
 pub fn replayers_c12() -> Vec<(&'static str, ReplayFn)> {
     vec![("strat", |v| replay_with::<StratCase>(v, &check_strat))]
